@@ -22,7 +22,7 @@ ASSUMPTIONS = ['acceptance |Ax-b| <= 100*eps*|b| computed densely (DESIGN §5 C1
 AXES = {
     'order': [3, 2, 4],
     'sizes': ['343', '222', '546', '263'],
-    'cls': ['lap', 'dd', 'spd'],
+    'cls': ['lap', 'dd', 'spd', 'cd'],
     'opr': [2, 1, 3, 4],
     'rhs': [2, 1, 4],
     'eps': [1e-6, 1e-3, 1e-10],
@@ -31,12 +31,12 @@ AXES = {
     'x0': ['none', 'rank2'],
     'seed': [0, 1, 2],
 }
-SIZES = {'343': (3, 4, 3, 4, 3), '222': (2, 2, 2, 2, 2), '546': (5, 4, 6, 5, 4), '263': (2, 6, 3, 2, 6), 'b': (8, 12, 7, 9, 10)}
+SIZES = {'cube12': (12, 12, 12, 12, 12), 'big': (12, 10, 11, 12, 10), '343': (3, 4, 3, 4, 3), '222': (2, 2, 2, 2, 2), '546': (5, 4, 6, 5, 4), '263': (2, 6, 3, 2, 6), 'b': (8, 12, 7, 9, 10)}
 
 
 def BOUNDS(tier):
     return {'axes': {k: [str(x) for x in v] for k, v in AXES.items()}, 'max_deviations': 3 if tier == 'quick' else 4,
-            'thorough_extra': 'order 5, sizes up to 12, full product on a reduced grid'}
+            'large_mode_grid': 'sizes (12,10[,11]) x {lap,cd,dd} x {gmres,bicgstab,direct} x prec x eps', 'thorough_extra': 'order 5, sizes up to 12, full product on a reduced grid'}
 
 
 def _configs(maxdev, axes=AXES):
@@ -54,7 +54,30 @@ def _configs(maxdev, axes=AXES):
                     yield cfg
 
 
+def _big_grid(tier):
+    """full product on larger modes (local systems too large for the iterative solvers to be trivially exact)"""
+    for order in (2, 3):
+        for cls in ('lap', 'cd', 'dd'):
+            for solver in ('gmres', 'bicgstab', 'direct'):
+                for prec in (None, 'c', 'r'):
+                    for eps in (1e-6, 1e-10):
+                        if solver == 'direct' and (prec is not None or order == 3):
+                            continue
+                        for sd in ((0,) if tier == 'quick' else (0, 1)):
+                            yield {'order': order, 'sizes': 'big', 'cls': cls, 'opr': 2, 'rhs': 2, 'eps': eps, 'prec': prec, 'solver': solver,
+                                   'x0': 'none', 'seed': sd}
+
+
 def cases(tier, seed):
+    for cfg in _big_grid(tier):
+        yield cfg
+    # local systems that need more than one GMRES cycle (41 Krylov vectors) at a tight eps
+    for cls in ('lap', 'cd'):
+        for prec in (None, 'c'):
+            for eps in (1e-10, 1e-6):
+                for rhs in (2, 3):
+                    for sd in ((0,) if tier == 'quick' else (0, 1, 2)):
+                        yield {'order': 3, 'sizes': 'cube12', 'cls': cls, 'opr': 2, 'rhs': rhs, 'eps': eps, 'prec': prec, 'solver': 'gmres', 'x0': 'none', 'seed': sd}
     for cfg in _configs(3 if tier == 'quick' else 4):
         yield cfg
     if tier == 'thorough':
@@ -72,11 +95,13 @@ def cases(tier, seed):
             yield {'order': 3, 'sizes': '263', 'cls': cls, 'opr': 3, 'rhs': 2, 'eps': eps, 'prec': prec, 'solver': solver, 'x0': x0, 'seed': 1}
 
 
-def laplace_cores(N, dtype=torch.float64):
+def laplace_cores(N, dtype=torch.float64, conv=0.0):
+    """Kronecker-sum operator sum_k I x .. x T_k x .. x I with T = tridiag(-1-conv, 2, -1+conv): the discrete Laplacian for conv=0,
+    a non-symmetric, (weakly) diagonally dominant convection-diffusion operator for 0 < conv < 1"""
     d = len(N)
     cores = []
     for k, n in enumerate(N):
-        L = 2 * torch.eye(n, dtype=dtype) - torch.diag(torch.ones(n - 1, dtype=dtype), 1) - torch.diag(torch.ones(n - 1, dtype=dtype), -1)
+        L = 2 * torch.eye(n, dtype=dtype) - (1 - conv) * torch.diag(torch.ones(n - 1, dtype=dtype), 1) - (1 + conv) * torch.diag(torch.ones(n - 1, dtype=dtype), -1)
         I = torch.eye(n, dtype=dtype)
         if d == 1:
             c = L[None, :, :, None]
@@ -99,6 +124,8 @@ def make_system(cfg):
     r = cfg['opr']
     if cfg['cls'] == 'lap':
         A = torchtt.TT(laplace_cores(N))
+    elif cfg['cls'] == 'cd':
+        A = torchtt.TT(laplace_cores(N, conv=0.9))
     else:
         st = space.operator_struct(N, N, [1] + [r] * (d - 1) + [1], 'f64', 'gauss')
         B, cB = build(st, 'B', 0)
@@ -133,7 +160,7 @@ def run_case(cfg):
         kw.update(max_full=0, local_solver=1)
     elif cfg['solver'] == 'bicgstab':
         kw.update(max_full=0, local_solver=2)
-    site = 'amen_solve.%s.%s.prec_%s' % (cfg['cls'], cfg['solver'], cfg['prec'])
+    site = 'amen_solve.%s.%s.prec_%s%s' % (cfg['cls'], cfg['solver'], cfg['prec'], '.large_modes' if cfg['sizes'] in ('big', 'cube12') else '')
     torch.manual_seed(cfg['seed'])
     np.random.seed(cfg['seed'])
     res, e = call(lambda: torchtt.solvers.amen_solve(A, b, **kw))
